@@ -50,7 +50,16 @@ RULE = ("every history of depth 3 over equal requests (one name, two lengths, na
 
 def run(ctx):
     from common import replay_recorded_findings
-    replay_recorded_findings(ctx, ["c15_mixed_session"])
+    replay_recorded_findings(ctx, ["c15_mixed_session", "c15_failing_ctor_canon_held"])
+    # clauses that need runtime context outside the history machine (reader configuration histories, failing
+    # constructors with the exception still referenced): stated directly on the implementation
+    from common import run_oracle
+    out = run_oracle("c15_extra.py", {"seed": ctx.seed, "n": 60 if ctx.tier == "quick" else 1500})
+    for f in out["failures"]:
+        ctx.violation("counterexample", {"key": {"extra": f["steps"]}, "input": f["steps"], "what": "; ".join(f["what"]),
+                                         "snippet": "# harness/oracles/c15_extra.py, steps: " + repr(f["steps"])})
+    ctx.cov["correspondence"]["io-config-histories+failing-ctor(impl)"] = {"histories": 60 if ctx.tier == "quick" else 1500,
+                                                                           "failures": len(out["failures"])}
     rh.run_check(ctx, "C15", batches, RULE, partial=PARTIAL)
 
 
